@@ -14,6 +14,7 @@ import Qv.Drv.C04
 import Qv.Drv.C20
 import Qv.Drv.C18
 import Qv.Drv.C17
+import Qv.Drv.C16
 /-! Line protocol: `<op> <json>` per line in, one JSON document per line out. -/
 open Lean
 
@@ -47,7 +48,9 @@ def handlers : List (String × (Json → Except String Json)) := [
   ("C18.constraint", Qv.Drv.C18.constraintJ),
   ("C17.wiener", Qv.Drv.C17.wienerJ),
   ("C17.coarsen", Qv.Drv.C17.coarsenJ),
-  ("C17.meas", Qv.Drv.C17.measJ)
+  ("C17.meas", Qv.Drv.C17.measJ),
+  ("C16.search", Qv.Drv.C16.searchJ),
+  ("C16.channel", Qv.Drv.C16.channelJ)
 ]
 
 def handle (line : String) : String :=
